@@ -18,8 +18,8 @@ HARNESS = [vf.kit("internal/util/javascript", "javascript"),
            ("cssminify/asset_test.go", "internal/server/assets/zz_verif_c34_test.go")]
 MODEL_IMPL = "fixed"        # the loop the check is meant for (tree + proposed repairs); "asis" is a negative control
 
-JVM_SMALL = {"JAVA_TOOL_OPTIONS": "-XX:ParallelGCThreads=2 -Xmx3g -Xss64m"}
-JVM_BIG = {"JAVA_TOOL_OPTIONS": "-XX:ParallelGCThreads=2 -Xmx6g -Xss512m"}
+JVM_SMALL = {"JAVA_TOOL_OPTIONS": "-XX:ParallelGCThreads=2 -Xmx3g -Xss16m"}
+JVM_BIG = {"JAVA_TOOL_OPTIONS": "-XX:ParallelGCThreads=2 -Xmx6g -Xss16m"}
 
 
 def B(s):
@@ -100,11 +100,11 @@ def _judge(chk, sd, recs, label, shards, timeout):
     return bad, feats, skipped
 
 
-def _drive(sd, texts, sample, files):
+def _drive(sd, texts, sample, files, whole_a=True):
     """Level A (MinifyCSS) on texts + files, level B (asset handler) on sample + files; returns the two logs."""
     tin = vf.write_ndjson(os.path.join(sd, "texts.ndjson"), texts)
     sin = vf.write_ndjson(os.path.join(sd, "sample.ndjson"), sample)
-    fa = vf.write_ndjson(os.path.join(sd, "filesA.ndjson"), [{"path": p, "split": True} for p in files])
+    fa = vf.write_ndjson(os.path.join(sd, "filesA.ndjson"), [{"path": p, "whole": whole_a, "split": True} for p in files])
     fb = vf.write_ndjson(os.path.join(sd, "filesB.ndjson"), [{"path": p} for p in files])
     ioa, iob = os.path.join(sd, "ioA.ndjson"), os.path.join(sd, "ioB.ndjson")
     ov = vf.make_overlay(sd, HARNESS)
@@ -177,17 +177,18 @@ def run():
         jobs = {
             # bounded + direct, and at the same time the generators of the inputs for the real code
             "nbr": ("CssMinify_Gen", _cfg(nb, "p", 5, MODEL_IMPL, inv), {}),
+            "sim": None,
             "bsel": ("CssMinify_Gen", _cfg("RowsBytesSel", "x", nsym, MODEL_IMPL, inv), {}),
-            "bsel2": ("CssMinify_Gen", _cfg("RowsBytesSel2", "x", nsym, MODEL_IMPL, inv), {}),
+            "bsel2": ("CssMinify_Gen", _cfg("RowsBytesSel2", "x", nsym - 1, MODEL_IMPL, inv), {}),
             "bval": ("CssMinify_Gen", _cfg("RowsBytesVal", "x", nsym, MODEL_IMPL, inv), {}),
             "bstr": ("CssMinify_Gen", _cfg("RowsBytesStr", "x", nsym, MODEL_IMPL, inv), {}),
-            # long random stylesheets following the rule grammar (simulation; every prefix in the domain is printed)
-            "sim": ("CssMinify_Gen", _cfg("RowsGram", "top", 60, MODEL_IMPL, inv),
-                    dict(simulate="num=%d" % (400 if thorough else 40), depth=41 if thorough else 31, seed=vf.SEED)),
             # negative controls
             "colon": ("CssMinify_Gen", _cfg("RowsBytesSel", "x", 4, "colon", "TokensSame"), {}),
             "asis": ("CssMinify_Gen", _cfg("RowsNbrQ", "p", 5, "asis", "TokensSame"), {}),
         }
+        # long random stylesheets following the rule grammar (simulation; every prefix in the domain is printed)
+        jobs["sim"] = ("CssMinify_Gen", _cfg("RowsGram", "top", 60, MODEL_IMPL, inv),
+                    dict(simulate="num=%d" % (300 if thorough else 30), depth=41 if thorough else 31, seed=vf.SEED))
 
         def one(item):
             name, (mod, cfg, kw) = item
@@ -198,14 +199,14 @@ def run():
             vf.log("tlc %-6s %6.1fs  %d states, %d records" % (name, r.wall, r.distinct, len(r.records)))
             return name, r
 
-        with ThreadPoolExecutor(max_workers=4) as ex:
+        with ThreadPoolExecutor(max_workers=5) as ex:
             res = dict(ex.map(one, jobs.items()))
 
         # 1. the design (with the proposed repairs) satisfies C34
         names = {"nbr": "MC: every context/left/separator/right/context combination (%s)" % nb,
                  "bsel": "MC: every string over 11 selector symbols up to %d" % nsym,
-                 "bsel2": "MC: every string over 11 more selector symbols up to %d" % nsym,
-                 "bval": "MC: every string over 12 value symbols up to %d" % nsym,
+                 "bsel2": "MC: every string over 11 more selector symbols up to %d" % (nsym - 1),
+                 "bval": "MC: every string over 10 value symbols up to %d" % nsym,
                  "bstr": "MC: every string over 12 string/comment/url symbols up to %d" % nsym}
         for nm, what in names.items():
             vf.tlc_ok(res[nm], what)
@@ -234,11 +235,11 @@ def run():
             raise vf.NoVerdict("generators produced too little (%d exhaustive, %d simulated)" % (len(exh), len(sim)))
         rnd = random.Random(vf.SEED)
         pool = [x for x in texts if len(x) >= 4]
-        sample = rnd.sample(pool, min(len(pool), 6000 if thorough else 1200))
+        sample = rnd.sample(pool, min(len(pool), 5000 if thorough else 500))
         files = _files()
 
         # 4. F: the real code, then the contract
-        la, lb = _drive(sd, texts, sample, files)
+        la, lb = _drive(sd, texts, sample, files, whole_a=thorough)     # quick: the whole files go through level B only
         vf.log("drivers done at %.0fs: %d stylesheets (level A %d records, level B %d)" % (time.time() - chk.t0, len(texts), len(la), len(lb)))
         to = 2400 if thorough else 900
         with ThreadPoolExecutor(max_workers=2) as ex:
@@ -270,7 +271,7 @@ def run():
                            "through the real MinifyCSS; a seeded sample and the shipped files go through the real asset handler; "
                            "CssMinify_Trace judges every pair; distinct_nontrivial = inputs with significant white space, a comment "
                            "between adjacent tokens or a comment opener inside url( ) (counted by the contract)"
-                           % (nsym, nb, "400" if thorough else "40"))
+                           % (nsym, nb, "300" if thorough else "30"))
         chk.sample({"kind": "level A generated", "in": _show(texts[len(texts) // 2]), "out": _show(la[len(texts) // 2]["out"])})
         chk.sample({"kind": "level A simulated", "in": _show(sim[-1][:300]), "out": _show(next(r["out"] for r in la if r["in"] == sim[-1])[:300])})
         chk.sample({"kind": "level A shipped rule", "src": la[-2]["src"], "in": _show(la[-2]["in"][:200]), "out": _show(la[-2]["out"][:200])})
